@@ -897,6 +897,9 @@ func (c *compiler) compileAll(tokens []*token) []instruction {
 }
 
 func (c *compiler) optimize(in []instruction) []instruction {
+	if verifNoOptimize(c) {
+		return in
+	}
 	if !c.Optimize {
 		return in
 	}
